@@ -8,6 +8,7 @@ import StamModel.Driver.Tv
 import StamModel.Driver.Tp
 import StamModel.Driver.Ql
 import StamModel.Driver.Wj
+import StamModel.Driver.Wd
 import StamModel.Driver.Cc
 import StamModel.Driver.Tid
 import StamModel.Driver.Hs
@@ -31,6 +32,7 @@ def step (line : String) : String :=
   | "tp" :: args => tp args
   | "ql" :: args => ql args
   | "wj" :: args => wj args
+  | "wd" :: args => wd args
   | "cc" :: args => cc args
   | "tid" :: args => tid args
   | "hs" :: args => hs args
